@@ -30,8 +30,11 @@ int w_id, w_src_state, w_dst_state;
 unsigned long w_len;
 WITNESS(move_thread_to_final);
 int c_move_thread_to_final(const char *src, const char *dst)
-__CPROVER_requires(__CPROVER_is_fresh(src, 3) && __CPROVER_is_fresh(dst, 3))
+__CPROVER_requires(__CPROVER_is_fresh(src, PATH_BYTES) && __CPROVER_is_fresh(dst, PATH_BYTES))
 __CPROVER_requires(src[0] == TAG_TMP && dst[0] == TAG_FIN && src[1] == dst[1] && src[2] == 0 && dst[2] == 0)
+/* source and destination are the same-named file of the SAME thread: both paths were formed from a
+ * thread directory formatted with this thread's tid */
+__CPROVER_requires(PATH_MINE(src) && PATH_MINE(dst))
 __CPROVER_requires(src[1] == 'o' || src[1] == 'j' || src[1] == 'a')
 __CPROVER_requires(FS_PRE_N(3000000u))
 /* the file to move is still the original if there was one (each file is moved at most once) */
@@ -104,9 +107,15 @@ void h_move_thread_to_final(void)
 int w_obs, w_json, w_aux, w_xkind, w_jfin;
 unsigned w_err0;
 WITNESS(move_thdir_to_final);
+WITNESS(thread_free_site);   /* ON in the harnesses where move_thdir_to_final's contract replaces the call made by ovni_thread_free */
 void c_move_thdir_to_final(const char *thdir, const char *thdir_final)
-__CPROVER_requires(__CPROVER_is_fresh(thdir, 2) && __CPROVER_is_fresh(thdir_final, 2))
+__CPROVER_requires(__CPROVER_is_fresh(thdir, PATH_BYTES) && __CPROVER_is_fresh(thdir_final, PATH_BYTES))
 __CPROVER_requires(thdir[0] == TAG_TMP && thdir[1] == 0 && thdir_final[0] == TAG_FIN && thdir_final[1] == 0)
+/* the relocation goes from the temporary to the final directory of the SAME thread: both strings are
+ * thread directories formatted with that thread's tid (an obligation at the call site in ovni_thread_free) */
+__CPROVER_requires(PATH_MINE(thdir) && PATH_MINE(thdir_final) && PATH_TID(thdir) == PATH_TID(thdir_final))
+/* at the call site in ovni_thread_free: the arguments ARE the calling thread's own two directory strings */
+__CPROVER_requires(WBIND(thread_free_site, thdir == rthread.thdir && thdir_final == rthread.thdir_final && g_fs_tid == rthread.tid))
 __CPROVER_requires(FS_PRE_N(2000000u) && HAD_BOUND && XENTRY_WF)
 /* the stream was created in tmp and all its flushed bytes are there (write(2) model) */
 __CPROVER_requires(g_st[T_TMP][F_OBS] == S_COMPLETE)
@@ -129,7 +138,7 @@ __CPROVER_ensures(FS_WF && g_jfin[T_TMP] == OLD(g_jfin[T_TMP]) && (g_st[T_FIN][F
 void h_move_thdir_to_final(void)
 {
 	const char *thdir, *thdir_final;
-	WITNESS_ON(move_thdir_to_final); WITNESS_OFF(move_thread_to_final);
+	WITNESS_ON(move_thdir_to_final); WITNESS_OFF(move_thread_to_final); WITNESS_OFF(thread_free_site);
 	move_thdir_to_final(thdir, thdir_final);
 	REACH("move_thdir_to_final returns");
 	if (g_err == w_err0 && w_json == S_COMPLETE && w_jfin && w_xkind == 1) REACH("three stream files moved, finished");
@@ -157,10 +166,16 @@ void h_move_thdir_to_final(void)
  *  at every FS call / die(): C09 crash invariant resp. C10 no-loss invariant (events, extra file;
  *  the metadata from the moment its new version is complete in tmp).
  */
-#define RT_DIRS_TMP (rproc.move_to_final == 1 && rproc.procdir[0] == TAG_TMP && rproc.procdir_final[0] == TAG_FIN \
-	&& rthread.thdir[0] == TAG_TMP && rthread.thdir[1] == 0 && rthread.thdir_final[0] == TAG_FIN && rthread.thdir_final[1] == 0)
-#define RT_DIRS_DIRECT (rproc.move_to_final == 0 && rproc.procdir[0] == TAG_FIN \
-	&& rthread.thdir[0] == TAG_FIN && rthread.thdir[1] == 0)
+/* the directory strings as left by create_proc_dir / create_thread_dir (its postcondition THREAD_DIRS_OF):
+ * process-level procdir(s); the thread directories carry the thread's own tid, the same in both trees;
+ * the ghost FS models the directories of this very thread */
+#define THDIR_OF(d, tag, t) ((d)[0] == (tag) && (d)[1] == 0 && PATH_THR(d) && PATH_TID(d) == (t))
+#define PROCDIR_OK(d, tag) ((d)[0] == (tag) && (d)[1] == 0 && PATH_PROC(d))
+#define RT_DIRS_TMP (rproc.move_to_final == 1 && PROCDIR_OK(rproc.procdir, TAG_TMP) && PROCDIR_OK(rproc.procdir_final, TAG_FIN) \
+	&& THDIR_OF(rthread.thdir, TAG_TMP, rthread.tid) && THDIR_OF(rthread.thdir_final, TAG_FIN, rthread.tid) && g_fs_tid == rthread.tid)
+#define RT_DIRS_DIRECT (rproc.move_to_final == 0 && PROCDIR_OK(rproc.procdir, TAG_FIN) \
+	&& THDIR_OF(rthread.thdir, TAG_FIN, rthread.tid) && g_fs_tid == rthread.tid)
+#define FMT_FRAME g_fmt_tid, g_fmt_n
 #define PARSON_PRE ((g_keys & (K_MANDATORY | K_FINISHED)) == K_MANDATORY && g_store_failed == 0 && g_store_calls < 1000u)
 #define PARSON_FRAME g_keys, g_v_finished, g_v_rank, g_v_nranks, g_parson_failed, g_died, g_store_calls, g_keys_at_store, \
 	g_finished_at_store, g_store_failed
@@ -174,16 +189,18 @@ void c_ovni_thread_free_tmp(void)
 __CPROVER_requires(rthread.ready && !rthread.finished && rthread.cpus == NULL && rthread.evlen == 0)
 __CPROVER_requires(rthread.evbuf == NULL || __CPROVER_is_fresh(rthread.evbuf, 64))
 __CPROVER_requires(RT_DIRS_TMP && PARSON_PRE)
-__CPROVER_requires(FS_PRE_N(1000000u) && XENTRY_WF)
+__CPROVER_requires(FS_PRE_N(1000000u) && XENTRY_WF && g_fmt_n < 1000000u)
 /* the stream was created in tmp and all its flushed bytes are there; the initial metadata may be in any state */
 __CPROVER_requires(g_st[T_TMP][F_OBS] == S_COMPLETE && g_had[F_OBS] == 1 && g_had[F_JSON] == 0 && !g_jfin[T_TMP])
 __CPROVER_requires(g_had[F_AUX] == (g_st[T_TMP][F_AUX] == S_COMPLETE))
 /* the final thread directory is fresh: no metadata of an earlier run */
 __CPROVER_requires(g_st[T_FIN][F_JSON] == S_ABSENT)
 __CPROVER_requires(WBIND(ovni_thread_free, w_json == g_st[T_TMP][F_JSON] && w_aux == g_st[T_TMP][F_AUX] && w_xkind == g_xkind && w_err0 == g_err))
-__CPROVER_assigns(FS_FRAME, DIAG_FRAME, PARSON_FRAME, g_had, g_dir, g_fd_open, rthread.evbuf, rthread.streamfd, rthread.finished, rthread.ready)
+__CPROVER_assigns(FS_FRAME, DIAG_FRAME, PARSON_FRAME, FMT_FRAME, g_had, g_dir, g_fd_open, rthread.evbuf, rthread.streamfd, rthread.finished, rthread.ready)
 __CPROVER_frees(rthread.evbuf)
 __CPROVER_ensures(rthread.finished == 1 && rthread.ready == 0 && !g_fd_open && !g_out_open)
+/* exactly one per-thread path was formatted (the metadata file), with the thread's own tid */
+__CPROVER_ensures(g_fmt_n == OLD(g_fmt_n) + 1 && g_fmt_tid == rthread.tid)
 __CPROVER_ensures(!g_store_failed && (g_keys_at_store & K_FINISHED) && g_finished_at_store == 1.0)
 __CPROVER_ensures(FINAL_COMPLETE || (g_err > OLD(g_err) && COPIES_INTACT))
 __CPROVER_ensures(g_fsfault != OLD(g_fsfault) || (FINAL_COMPLETE && g_err == OLD(g_err)))
@@ -193,7 +210,7 @@ __CPROVER_ensures(g_st[T_FIN][F_JSON] == S_ABSENT || g_st[T_FIN][F_OBS] == S_COM
 
 void h_ovni_thread_free_tmp(void)
 {
-	WITNESS_ON(ovni_thread_free); WITNESS_OFF(move_thdir_to_final); WITNESS_OFF(move_thread_to_final);
+	WITNESS_ON(ovni_thread_free); WITNESS_OFF(move_thdir_to_final); WITNESS_OFF(move_thread_to_final); WITNESS_ON(thread_free_site);
 	ovni_thread_free();
 	REACH("ovni_thread_free returns (tmpdir mode)");
 	if (g_err == w_err0 && w_xkind == 1) REACH("stream moved to final with an extra stream file");
@@ -217,13 +234,14 @@ void c_ovni_thread_free_direct(void)
 __CPROVER_requires(rthread.ready && !rthread.finished && rthread.cpus == NULL && rthread.evlen == 0)
 __CPROVER_requires(rthread.evbuf == NULL || __CPROVER_is_fresh(rthread.evbuf, 64))
 __CPROVER_requires(RT_DIRS_DIRECT && PARSON_PRE)
-__CPROVER_requires(FS_WF && FS_QUIET_N(1000000u) && FILE_PRE && g_file_len == g_total)
+__CPROVER_requires(FS_WF && FS_QUIET_N(1000000u) && FILE_PRE && g_file_len == g_total && g_fmt_n < 1000000u)
 /* the initial metadata (any state) does not carry the finished mark */
 __CPROVER_requires(!g_jfin[T_FIN] && g_had[F_OBS] == 0 && g_had[F_JSON] == 0 && g_had[F_AUX] == 0)
 __CPROVER_requires(WBIND(ovni_thread_free, w_json == g_st[T_FIN][F_JSON] && w_err0 == g_err))
-__CPROVER_assigns(FS_FRAME, DIAG_FRAME, PARSON_FRAME, g_had, g_dir, g_fd_open, rthread.evbuf, rthread.streamfd, rthread.finished, rthread.ready)
+__CPROVER_assigns(FS_FRAME, DIAG_FRAME, PARSON_FRAME, FMT_FRAME, g_had, g_dir, g_fd_open, rthread.evbuf, rthread.streamfd, rthread.finished, rthread.ready)
 __CPROVER_frees(rthread.evbuf)
 __CPROVER_ensures(rthread.finished == 1 && rthread.ready == 0 && !g_fd_open)
+__CPROVER_ensures(g_fmt_n == OLD(g_fmt_n) + 1 && g_fmt_tid == rthread.tid)
 __CPROVER_ensures(!g_store_failed && (g_keys_at_store & K_FINISHED) && g_finished_at_store == 1.0)
 __CPROVER_ensures(g_st[T_FIN][F_JSON] == S_COMPLETE && g_jfin[T_FIN])
 __CPROVER_ensures(g_fsfault == OLD(g_fsfault) && g_err == OLD(g_err))
@@ -234,7 +252,7 @@ __CPROVER_ensures(UNTOUCHED(F_OBS) && UNTOUCHED(F_AUX) && g_st[T_TMP][F_JSON] ==
 
 void h_ovni_thread_free_direct(void)
 {
-	WITNESS_ON(ovni_thread_free); WITNESS_OFF(move_thdir_to_final); WITNESS_OFF(move_thread_to_final);
+	WITNESS_ON(ovni_thread_free); WITNESS_OFF(move_thdir_to_final); WITNESS_OFF(move_thread_to_final); WITNESS_ON(thread_free_site);
 	ovni_thread_free();
 	REACH("ovni_thread_free returns (direct mode)");
 	if (w_json == S_COMPLETE) REACH("initial metadata was complete, replaced by the finished one");
@@ -278,15 +296,15 @@ __CPROVER_requires(RT_DIRS_DIRECT && PARSON_PRE)
 __CPROVER_requires(FS_WF && FS_QUIET_N(1000000u) && FILE_PRE && g_total == g_file_len + rthread.evlen)
 __CPROVER_requires(!g_jfin[T_FIN] && g_had[F_OBS] == 0 && g_had[F_JSON] == 0 && g_had[F_AUX] == 0)
 __CPROVER_requires(WBIND(flush_then_free, w_evlen == rthread.evlen))
-__CPROVER_assigns(FS_FRAME, DIAG_FRAME, PARSON_FRAME, g_had, g_dir, g_fd_open, rthread.evbuf, rthread.streamfd, rthread.finished, rthread.ready,
+__CPROVER_assigns(FS_FRAME, DIAG_FRAME, PARSON_FRAME, FMT_FRAME, g_had, g_dir, g_fd_open, rthread.evbuf, rthread.streamfd, rthread.finished, rthread.ready,
 	rthread.evlen, g_file_len, g_byte)
 __CPROVER_frees(rthread.evbuf)
-__CPROVER_ensures(rthread.finished == 1 && g_file_len == g_total && rthread.evlen == 0)
+__CPROVER_ensures(rthread.finished == 1 && g_file_len == g_total && rthread.evlen == 0 && g_fmt_tid == rthread.tid)
 __CPROVER_ensures(g_st[T_FIN][F_JSON] == S_COMPLETE && g_jfin[T_FIN] && INV_CRASH)
 ;
 void h_flush_then_free(void)
 {
-	WITNESS_ON(flush_then_free); WITNESS_OFF(ovni_thread_free);
+	WITNESS_ON(flush_then_free); WITNESS_OFF(ovni_thread_free); WITNESS_ON(thread_free_site);
 	c09_flush_then_free();
 	REACH("flush + free returns");
 	if (w_evlen > 100000) REACH("a large buffer was flushed before the free");
@@ -296,16 +314,20 @@ void h_flush_then_free(void)
  * die on failure: create_trace_stream, mkdir_thread, create_thread_dir, thread_metadata_store  (C10)
  * "returns ==> it worked" (no FS call failed, the object exists); every failing path ends in die()
  */
-int w_tree;
+int w_tree, w_tid, w_pid;
 WITNESS(mkdir_thread);
+/* mkdir_thread(path, procdir, tid): the directory created (and returned in path) is thread.<tid> of
+ * procdir: formed from the process-level directory given, in its tree, with the integer tid -- the
+ * mkpath stub asserts that the path it gets carries g_fs_tid, bound here to the tid parameter */
 void c_mkdir_thread(char *path, const char *procdir, int tid)
-__CPROVER_requires(__CPROVER_is_fresh(path, PATH_MAX) && __CPROVER_is_fresh(procdir, 2))
-__CPROVER_requires((procdir[0] == TAG_TMP || procdir[0] == TAG_FIN) && procdir[1] == 0)
-__CPROVER_requires(FS_WF && FS_QUIET_N(1000000u) && INV_NOLOSS)
-__CPROVER_requires(WBIND(mkdir_thread, w_tree == (procdir[0] == TAG_TMP ? T_TMP : T_FIN)))
-__CPROVER_assigns(FS_FRAME, DIAG_FRAME, g_died, g_dir, g_mkpath_failed, __CPROVER_object_upto(path, 3))
+__CPROVER_requires(__CPROVER_is_fresh(path, PATH_MAX) && __CPROVER_is_fresh(procdir, PATH_BYTES))
+__CPROVER_requires((procdir[0] == TAG_TMP || procdir[0] == TAG_FIN) && procdir[1] == 0 && PATH_PROC(procdir))
+__CPROVER_requires(FS_WF && FS_QUIET_N(1000000u) && INV_NOLOSS && g_fs_tid == tid && g_fmt_n < 1000000u)
+__CPROVER_requires(WBIND(mkdir_thread, w_tree == (procdir[0] == TAG_TMP ? T_TMP : T_FIN) && w_tid == tid))
+__CPROVER_assigns(FS_FRAME, DIAG_FRAME, FMT_FRAME, g_died, g_dir, g_mkpath_failed, __CPROVER_object_upto(path, PATH_BYTES))
 __CPROVER_ensures(g_fsfault == OLD(g_fsfault) && g_mkpath_failed == OLD(g_mkpath_failed))
-__CPROVER_ensures(path[0] == procdir[0] && path[1] == 0)
+__CPROVER_ensures(THDIR_OF(path, procdir[0], tid))
+__CPROVER_ensures(g_fmt_n == OLD(g_fmt_n) + 1 && g_fmt_tid == tid)
 __CPROVER_ensures(g_dir[procdir[0] == TAG_TMP ? T_TMP : T_FIN] == 1)
 ;
 void h_mkdir_thread(void)
@@ -315,33 +337,46 @@ void h_mkdir_thread(void)
 	mkdir_thread(path, procdir, tid);
 	REACH("mkdir_thread returns");
 	if (w_tree == T_TMP) REACH("thread directory created in tmp");
+	if (w_tid == 70000 && g_fmt_tid == 70000) REACH("thread directory formatted with tid 70000");
 }
 
+/* create_thread_dir(tid): every thread directory of thread tid is thread.<tid>: the temporary/direct
+ * one under procdir, the final one (OVNI_TMPDIR mode) under procdir_final, formatted with the SAME tid */
 void c_create_thread_dir(int tid)
-__CPROVER_requires((rproc.procdir[0] == TAG_TMP || rproc.procdir[0] == TAG_FIN) && rproc.procdir[1] == 0)
-__CPROVER_requires(!rproc.move_to_final || (rproc.procdir_final[0] == TAG_FIN && rproc.procdir_final[1] == 0 && rproc.procdir[0] == TAG_TMP))
-__CPROVER_requires(FS_WF && FS_QUIET_N(1000000u) && INV_NOLOSS)
-__CPROVER_assigns(FS_FRAME, DIAG_FRAME, g_died, g_dir, g_mkpath_failed, __CPROVER_object_upto(rthread.thdir, 3), __CPROVER_object_upto(rthread.thdir_final, 3))
+__CPROVER_requires(PROCDIR_OK(rproc.procdir, TAG_TMP) || PROCDIR_OK(rproc.procdir, TAG_FIN))
+__CPROVER_requires(!rproc.move_to_final || (PROCDIR_OK(rproc.procdir_final, TAG_FIN) && rproc.procdir[0] == TAG_TMP))
+__CPROVER_requires(FS_WF && FS_QUIET_N(1000000u) && INV_NOLOSS && g_fs_tid == tid && g_fmt_n < 1000000u)
+__CPROVER_requires(WBIND(mkdir_thread, w_tid == tid && w_pid == rproc.pid))
+__CPROVER_assigns(FS_FRAME, DIAG_FRAME, FMT_FRAME, g_died, g_dir, g_mkpath_failed, __CPROVER_object_upto(rthread.thdir, PATH_BYTES), __CPROVER_object_upto(rthread.thdir_final, PATH_BYTES))
 __CPROVER_ensures(g_fsfault == OLD(g_fsfault))
-__CPROVER_ensures(rthread.thdir[0] == rproc.procdir[0] && rthread.thdir[1] == 0 && g_dir[rproc.procdir[0] == TAG_TMP ? T_TMP : T_FIN] == 1)
-__CPROVER_ensures(!rproc.move_to_final || (rthread.thdir_final[0] == TAG_FIN && rthread.thdir_final[1] == 0 && g_dir[T_FIN] == 1 && g_dir[T_TMP] == 1))
+__CPROVER_ensures(THDIR_OF(rthread.thdir, rproc.procdir[0], tid) && g_dir[rproc.procdir[0] == TAG_TMP ? T_TMP : T_FIN] == 1)
+__CPROVER_ensures(!rproc.move_to_final || (THDIR_OF(rthread.thdir_final, TAG_FIN, tid) && g_dir[T_FIN] == 1 && g_dir[T_TMP] == 1))
+/* same tid in both directories; one formatted path per directory */
+__CPROVER_ensures(!rproc.move_to_final || PATH_TID(rthread.thdir) == PATH_TID(rthread.thdir_final))
+__CPROVER_ensures(g_fmt_n == OLD(g_fmt_n) + 1 + (unsigned) (rproc.move_to_final != 0) && g_fmt_tid == tid)
 ;
 void h_create_thread_dir(void)
 {
 	int tid;
+	WITNESS_ON(mkdir_thread);
 	create_thread_dir(tid);
 	REACH("create_thread_dir returns");
 	if (rproc.move_to_final) REACH("both thread directories created");
+	if (rproc.move_to_final && w_tid != w_pid) REACH("both thread directories created, thread other than the process leader (tid != pid)");
+	if (!rproc.move_to_final && w_tid != w_pid) REACH("direct mode, tid != pid");
 }
 
+/* create_trace_stream: the stream file opened is <procdir>/thread.<rthread.tid>/stream.obs (the open
+ * stub asserts that the path carries g_fs_tid, bound here to rthread.tid) */
 void c_create_trace_stream(void)
-__CPROVER_requires((rproc.procdir[0] == TAG_TMP || rproc.procdir[0] == TAG_FIN))
-__CPROVER_requires(FS_WF && FS_QUIET_N(1000000u) && INV_NOLOSS)
-__CPROVER_requires(WBIND(mkdir_thread, w_tree == (rproc.procdir[0] == TAG_TMP ? T_TMP : T_FIN)))
-__CPROVER_assigns(FS_FRAME, DIAG_FRAME, g_died, g_fd_open, rthread.streamfd)
+__CPROVER_requires(PROCDIR_OK(rproc.procdir, TAG_TMP) || PROCDIR_OK(rproc.procdir, TAG_FIN))
+__CPROVER_requires(FS_WF && FS_QUIET_N(1000000u) && INV_NOLOSS && g_fs_tid == rthread.tid && g_fmt_n < 1000000u)
+__CPROVER_requires(WBIND(mkdir_thread, w_tree == (rproc.procdir[0] == TAG_TMP ? T_TMP : T_FIN) && w_tid == rthread.tid && w_pid == rproc.pid))
+__CPROVER_assigns(FS_FRAME, DIAG_FRAME, FMT_FRAME, g_died, g_fd_open, rthread.streamfd)
 __CPROVER_ensures(g_fsfault == OLD(g_fsfault))
 __CPROVER_ensures(rthread.streamfd >= 0 && g_fd_open)
 __CPROVER_ensures(g_st[rproc.procdir[0] == TAG_TMP ? T_TMP : T_FIN][F_OBS] != S_ABSENT)
+__CPROVER_ensures(g_fmt_n == OLD(g_fmt_n) + 1 && g_fmt_tid == rthread.tid)
 ;
 void h_create_trace_stream(void)
 {
@@ -349,17 +384,21 @@ void h_create_trace_stream(void)
 	create_trace_stream();
 	REACH("create_trace_stream returns");
 	if (w_tree == T_FIN) REACH("stream created in the final directory (direct mode)");
+	if (w_tid != w_pid) REACH("stream created by a thread other than the process leader");
 }
 
+/* thread_metadata_store: the file stored is <procdir>/thread.<rthread.tid>/stream.json (asserted by the store stub) */
 void c_thread_metadata_store(void)
-__CPROVER_requires((rproc.procdir[0] == TAG_TMP || rproc.procdir[0] == TAG_FIN))
+__CPROVER_requires(PROCDIR_OK(rproc.procdir, TAG_TMP) || PROCDIR_OK(rproc.procdir, TAG_FIN))
 __CPROVER_requires(FS_WF && FS_QUIET_N(1000000u) && INV_NOLOSS && g_store_failed == 0 && g_store_calls < 1000u)
-__CPROVER_requires(WBIND(mkdir_thread, w_tree == (rproc.procdir[0] == TAG_TMP ? T_TMP : T_FIN)))
-__CPROVER_assigns(FS_FRAME, DIAG_FRAME, g_died, g_had, g_store_calls, g_store_failed, g_keys_at_store, g_finished_at_store)
+__CPROVER_requires(g_fs_tid == rthread.tid && g_fmt_n < 1000000u)
+__CPROVER_requires(WBIND(mkdir_thread, w_tree == (rproc.procdir[0] == TAG_TMP ? T_TMP : T_FIN) && w_tid == rthread.tid && w_pid == rproc.pid))
+__CPROVER_assigns(FS_FRAME, DIAG_FRAME, FMT_FRAME, g_died, g_had, g_store_calls, g_store_failed, g_keys_at_store, g_finished_at_store)
 __CPROVER_ensures(g_fsfault == OLD(g_fsfault) && !g_store_failed && g_store_calls == OLD(g_store_calls) + 1)
 __CPROVER_ensures(g_st[rproc.procdir[0] == TAG_TMP ? T_TMP : T_FIN][F_JSON] == S_COMPLETE)
 __CPROVER_ensures(g_jfin[rproc.procdir[0] == TAG_TMP ? T_TMP : T_FIN] == ((g_keys & K_FINISHED) && g_v_finished == 1.0))
 __CPROVER_ensures(g_keys_at_store == g_keys)
+__CPROVER_ensures(g_fmt_n == OLD(g_fmt_n) + 1 && g_fmt_tid == rthread.tid)
 ;
 void h_thread_metadata_store(void)
 {
@@ -367,13 +406,117 @@ void h_thread_metadata_store(void)
 	thread_metadata_store();
 	REACH("thread_metadata_store returns");
 	if (w_tree == T_TMP && (g_keys & K_FINISHED)) REACH("finished metadata stored in tmp");
+	if (w_tid != w_pid) REACH("metadata stored by a thread other than the process leader");
+}
+
+/* ------------------------------------------------------------------------------------------
+ * ovni_thread_init(tid): EVERY per-thread path of thread tid is formed from the right process
+ * directory and tid itself                                                     (C09 and C10)
+ * The real create_thread_dir, mkdir_thread, create_trace_stream, thread_metadata_init,
+ * thread_metadata_populate, thread_metadata_store, ovni_thread_require run inline; write_evbuf is
+ * used through c_write_evbuf above (its precondition -- no finished mark visible in final -- is an
+ * obligation at the call site), version_parse through a frame-only contract (plan C14 proves it).
+ * The ghost FS models the directories of thread g_fs_tid == tid: mkpath / open / the store stub
+ * assert that the path they get is a per-thread path carrying that integer.
+ *  returns ==> rthread.tid == tid; thdir = <procdir>/thread.<tid> exists; OVNI_TMPDIR mode:
+ *     thdir_final = <procdir_final>/thread.<tid> exists, SAME tid; stream.obs was created and
+ *     the initial (unfinished) stream.json is complete in <procdir>/thread.<tid>; exactly
+ *     3 (+1) per-thread paths were formatted; no FS call failed (else die)
+ */
+char *strpbrk(const char *str, const char *accept) { (void) accept; return nondet_bool() ? NULL : (char *) str; }
+int cr_version_parse(const char *version, int tuple[3])
+__CPROVER_requires(1)
+__CPROVER_assigns(__CPROVER_object_upto(tuple, 3 * sizeof(int)), DIAG_FRAME)
+__CPROVER_ensures(1)
+;
+WITNESS(ovni_thread_init);
+void c_ovni_thread_init_paths(pid_t tid)
+__CPROVER_requires(CAP_OK && FILE_PRE && g_file_len == 0 && g_total == 0)
+__CPROVER_requires(!rthread.ready && g_keys == 0 && g_store_calls == 0 && g_store_failed == 0)
+__CPROVER_requires(PROCDIR_OK(rproc.procdir, TAG_TMP) || PROCDIR_OK(rproc.procdir, TAG_FIN))
+__CPROVER_requires(rproc.move_to_final == 0 || rproc.move_to_final == 1)
+__CPROVER_requires(rproc.move_to_final ? (PROCDIR_OK(rproc.procdir_final, TAG_FIN) && rproc.procdir[0] == TAG_TMP) : rproc.procdir[0] == TAG_FIN)
+__CPROVER_requires(FS_WF && FS_QUIET_N(1000000u) && INV_NOLOSS && g_fs_tid == tid && g_fmt_n < 1000000u)
+/* fresh thread directories: nothing of an earlier run */
+__CPROVER_requires(g_st[T_FIN][F_JSON] == S_ABSENT && g_st[T_TMP][F_JSON] == S_ABSENT && !g_jfin[T_FIN] && !g_jfin[T_TMP])
+__CPROVER_requires(g_had[F_OBS] == 0 && g_had[F_JSON] == 0 && g_had[F_AUX] == 0)
+__CPROVER_requires(WBIND(ovni_thread_init, w_tid == tid && w_pid == rproc.pid))
+__CPROVER_assigns(rthread, g_file_len, g_byte, g_died, DIAG_FRAME, FS_FRAME, FMT_FRAME, PARSON_FRAME, g_dir, g_mkpath_failed, g_fd_open, g_had,
+	g_v_version, g_v_tid, g_v_pid, g_v_appid, g_part_is_thread, g_v_loom)
+__CPROVER_ensures(tid != 0 && rthread.ready == 1 && rthread.tid == tid && g_fsfault == OLD(g_fsfault))
+__CPROVER_ensures(THDIR_OF(rthread.thdir, rproc.procdir[0], tid) && g_dir[rproc.move_to_final ? T_TMP : T_FIN] == 1)
+__CPROVER_ensures(!rproc.move_to_final || (THDIR_OF(rthread.thdir_final, TAG_FIN, tid) && g_dir[T_FIN] == 1))
+__CPROVER_ensures(g_fmt_n == OLD(g_fmt_n) + 3 + (unsigned) rproc.move_to_final && g_fmt_tid == tid)
+__CPROVER_ensures(rthread.streamfd >= 0 && g_fd_open && g_st[rproc.move_to_final ? T_TMP : T_FIN][F_OBS] != S_ABSENT)
+__CPROVER_ensures(g_st[rproc.move_to_final ? T_TMP : T_FIN][F_JSON] == S_COMPLETE && !g_jfin[rproc.move_to_final ? T_TMP : T_FIN])
+__CPROVER_ensures(g_store_calls == 1 && !g_store_failed && (g_keys_at_store & (K_MANDATORY | K_FINISHED)) == K_MANDATORY)
+/* the stream header is on disk, the buffer is empty */
+__CPROVER_ensures(g_file_len == 8 && rthread.evlen == 0)
+/* OVNI_TMPDIR mode: nothing is put in the final thread directory before the thread ends */
+__CPROVER_ensures(!rproc.move_to_final || (g_st[T_FIN][F_OBS] == OLD(g_st[T_FIN][F_OBS]) && g_st[T_FIN][F_JSON] == S_ABSENT && g_st[T_FIN][F_AUX] == OLD(g_st[T_FIN][F_AUX])))
+;
+void h_ovni_thread_init_paths(void)
+{
+	pid_t tid;
+	WITNESS_ON(ovni_thread_init); WITNESS_OFF(mkdir_thread);
+	ovni_thread_init(tid);
+	REACH("ovni_thread_init returns");
+	if (rproc.move_to_final && w_tid != w_pid) REACH("OVNI_TMPDIR mode, thread other than the process leader (tid != pid)");
+	if (!rproc.move_to_final && w_tid != w_pid) REACH("direct mode, tid != pid");
+	if (w_tid == w_pid) REACH("process leader (tid == pid)");
+}
+
+/* ------------------------------------------------------------------------------------------
+ * The ghost-FS STUB json_serialize_to_file_pretty (c09_fs_post.h) used by every runtime group above,
+ * checked against the contract PROVED for the real parson function in harness/c09_parson.c
+ * (groups parson_json_serialize_to_file_pretty / parson_json_serialize_to_file): same outcome classes
+ *   JSONSuccess  <=> no failure counted;  JSONSuccess ==> COMPLETE with the finished mark of the value
+ *   JSONFailure  ==> file untouched (no text / fopen failed)  OR  truncated: PARTIAL (fputs failed)
+ *                    OR MAYBE (only fclose failed: a failing close IS reported)
+ * and each class is reachable in the stub (REACH points), so the callers were verified against every
+ * behaviour the contract allows.  The stub adds ghost bookkeeping only (g_had, g_store_calls, snapshots).
+ */
+#define JS_TMP (path[0] == TAG_TMP)
+#define JS_ST (JS_TMP ? g_st[T_TMP][F_JSON] : g_st[T_FIN][F_JSON])
+#define JS_SAME (g_st[T_TMP][F_JSON] == OLD(g_st[T_TMP][F_JSON]) && g_st[T_FIN][F_JSON] == OLD(g_st[T_FIN][F_JSON]) \
+	&& g_jfin[T_TMP] == OLD(g_jfin[T_TMP]) && g_jfin[T_FIN] == OLD(g_jfin[T_FIN]))
+int w_tmp, w_st0;
+WITNESS(json_store_stub);
+JSON_Status c_json_store_stub(const JSON_Value *v, const char *path)
+__CPROVER_requires(__CPROVER_is_fresh(path, PATH_BYTES))
+__CPROVER_requires(PATH_WF(path) && path[1] == 'j' && PATH_MINE(path))
+__CPROVER_requires(FS_WF && FS_QUIET_N(1000000u) && !g_in_open && INV_NOLOSS && g_store_calls < 1000u)
+__CPROVER_requires(WBIND(json_store_stub, w_tmp == JS_TMP && w_st0 == JS_ST))
+__CPROVER_assigns(FS_FRAME_FILES, g_had, g_store_calls, g_store_failed, g_keys_at_store, g_finished_at_store)
+__CPROVER_ensures(RV == JSONSuccess || RV == JSONFailure)
+__CPROVER_ensures((RV == JSONSuccess) == (g_fsfault == OLD(g_fsfault)))
+__CPROVER_ensures(!g_out_open && FS_WF)
+__CPROVER_ensures(RV != JSONSuccess || (JS_ST == S_COMPLETE \
+	&& (JS_TMP ? g_jfin[T_TMP] : g_jfin[T_FIN]) == ((g_keys & K_FINISHED) && g_v_finished == 1.0)))
+__CPROVER_ensures(RV == JSONSuccess || JS_SAME || JS_ST == S_PARTIAL || JS_ST == S_MAYBE)
+__CPROVER_ensures(UNTOUCHED(F_OBS) && UNTOUCHED(F_AUX))
+__CPROVER_ensures(JS_TMP ? (g_st[T_FIN][F_JSON] == OLD(g_st[T_FIN][F_JSON]) && g_jfin[T_FIN] == OLD(g_jfin[T_FIN])) \
+	: (g_st[T_TMP][F_JSON] == OLD(g_st[T_TMP][F_JSON]) && g_jfin[T_TMP] == OLD(g_jfin[T_TMP])))
+;
+void h_json_store_stub(void)
+{
+	const JSON_Value *v; const char *path;
+	WITNESS_ON(json_store_stub);
+	JSON_Status r = json_serialize_to_file_pretty(v, path);
+	int st = w_tmp ? g_st[T_TMP][F_JSON] : g_st[T_FIN][F_JSON];
+	if (r == JSONSuccess) REACH("stub: stored, complete");
+	if (r != JSONSuccess && st == S_COMPLETE && w_st0 == S_COMPLETE) REACH("stub: no text / fopen failed, old file intact");
+	if (r != JSONSuccess && st == S_PARTIAL && w_st0 == S_COMPLETE) REACH("stub: fputs failed, truncated");
+	if (r != JSONSuccess && st == S_MAYBE) REACH("stub: fclose failed => JSONFailure, not known on disk");
 }
 
 /* try_clean_dir (C10: "removing temporaries"): never touches a stream file (rmdir removes only an
  * empty directory); a failure other than ENOTEMPTY / ENOENT is reported (warn), those two are
  * the expected outcomes when other threads still use the directory. */
 void c_try_clean_dir(const char *dir)
-__CPROVER_requires(__CPROVER_is_fresh(dir, 2) && (dir[0] == TAG_TMP || dir[0] == TAG_FIN) && dir[1] == 0)
+__CPROVER_requires(__CPROVER_is_fresh(dir, PATH_BYTES) && (dir[0] == TAG_TMP || dir[0] == TAG_FIN) && dir[1] == 0)
+/* a process-level directory (ovni_proc_fini) or this thread's directory (ovni_thread_free) */
+__CPROVER_requires(PATH_PROC(dir) || PATH_MINE(dir))
 __CPROVER_requires(FS_WF && FS_QUIET_N(1000000u) && INV_NOLOSS && INV_CRASH)
 __CPROVER_assigns(__CPROVER_errno, g_rmdir_errno, g_dir, DIAG_FRAME)
 __CPROVER_ensures((g_warn == OLD(g_warn) + 1) == (g_rmdir_errno != 0 && g_rmdir_errno != ENOTEMPTY && g_rmdir_errno != ENOENT))
@@ -397,9 +540,11 @@ void c_mkdir_proc(char *path, const char *tracedir, const char *loom, int pid)
 __CPROVER_requires(__CPROVER_is_fresh(path, PATH_MAX) && __CPROVER_is_fresh(tracedir, 2) && __CPROVER_is_fresh(loom, 2))
 __CPROVER_requires((tracedir[0] == TAG_TMP || tracedir[0] == TAG_FIN) && tracedir[1] == 0 && loom[1] == 0)
 __CPROVER_requires(FS_WF && FS_QUIET_N(1000000u) && INV_NOLOSS)
-__CPROVER_assigns(FS_FRAME, DIAG_FRAME, g_died, g_dir, g_mkpath_failed, __CPROVER_object_upto(path, 3))
+__CPROVER_assigns(FS_FRAME, DIAG_FRAME, g_died, g_pdir, g_mkpath_failed, __CPROVER_object_upto(path, PATH_BYTES))
 __CPROVER_ensures(g_mkpath_failed == OLD(g_mkpath_failed))
-__CPROVER_ensures(g_dir[tracedir[0] == TAG_TMP ? T_TMP : T_FIN] == 1)
+/* the directory created and returned is a process-level directory of the tree of tracedir */
+__CPROVER_ensures(PROCDIR_OK(path, tracedir[0]))
+__CPROVER_ensures(g_pdir[tracedir[0] == TAG_TMP ? T_TMP : T_FIN] == 1)
 ;
 void h_mkdir_proc(void)
 {
